@@ -119,6 +119,29 @@ def parse_cases(rng, tier):
         j = b'"' + s + b'"'
         cases.append(Case("u_unjson", [j], [("u_unjson %s" % hexs(j), "n")], "directed-grid"))
         cases.append(Case("d_unjson", [j], [("d_unjson %s" % hexs(j), "n")], "directed-grid"))
+    # the same numerals in other JSON spellings (RFC 8259: any character may be written as \uXXXX, upper or lower case hex;
+    # the solidus may be escaped): equal strings, so they must decode to the same value or be refused alike; plus escapes
+    # that denote other characters, malformed escapes, and escapes of non-ASCII code points (C18-agent18: decoding through
+    # a borrowed &str refuses every document that contains an escape)
+    def esc(b, upper=False):
+        h = "%04x" % b
+        return ("\\u" + (h.upper() if upper else h)).encode()
+    numerals = [b"0", b"1", b"12", b"0.003", b"1.5", b"340282366920938463463374607431768211456", b"115792089237316195423570985008687907853269984665640564039457.584007913129639935",
+                b"007", b"1.", b".5", b"", b"1.0000000000000000001", str(W256).encode()] + rng.sample(strs, 12)
+    for s in numerals:
+        if any(c < 0x20 or c > 0x7e or c in b'"\\' for c in s):
+            continue
+        spellings = [b"".join(esc(c) for c in s), b"".join(esc(c, True) if i % 2 else bytes([c]) for i, c in enumerate(s)),
+                     b"".join(esc(c) if c == 0x2e else bytes([c]) for c in s), esc(s[0]) + s[1:] if s else b"", s[:-1] + esc(s[-1], True) if s else b""]
+        for sp in spellings:
+            j = b'"' + sp + b'"'
+            cases.append(Case("u_unjson", [j], [("u_unjson %s" % hexs(j), "n")], "directed-grid"))
+            cases.append(Case("d_unjson", [j], [("d_unjson %s" % hexs(j), "n")], "directed-grid"))
+    for body in (b"1\\u0032", b"\\u0031\\u002E5", b"1\\/2", b"\\u00312", b"1\\u003", b"1\\u00g1", b"1\\x31", b"1\\", b"\\u0661", b"1\\u00e9", b"\\ud83d\\ude00", b"\\ud83d",
+                 b"1\\n", b"1\\t2", b"\\\\1", b"\\\"1", b"1\\u0000", b"1\\u0020", b" 1", b"1 ", b"+1", b"\\u002b1", b"\\u002d1", b"1e3", b"1\\u00652"):
+        j = b'"' + body + b'"'
+        cases.append(Case("u_unjson", [j], [("u_unjson %s" % hexs(j), "n")], "malformed"))
+        cases.append(Case("d_unjson", [j], [("d_unjson %s" % hexs(j), "n")], "malformed"))
     for j in (b"12", b"1.5", b'"12', b'12"', b"", b"null", b"[]"):
         cases.append(Case("u_unjson", [j], [("u_unjson %s" % hexs(j), "n")], "malformed"))
         cases.append(Case("d_unjson", [j], [("d_unjson %s" % hexs(j), "n")], "malformed"))
